@@ -156,7 +156,7 @@ def runOne (payload : String) : String :=
     let loc := kvOf cfg "loc"
     -- locales whose language the plural model knows (others fall back to `en` in the crate's negotiation,
     -- which the model also does, but only the listed ones are validated)
-    if !(["en", "en-US", "pl", "ru", "ar", "fr", "cs", "lt", "ja", "pl-PL", "fr-CA", "xx"].contains loc) then "unsupported" else
+    if !(["en", "en-US", "pl", "ru", "ar", "fr", "cs", "lt", "ja", "pl-PL", "fr-CA", "xx", "pt", "pt-PT", "pt-BR", "pt-AO", "de", "uk", "sl", "cy", "ro", "sv"].contains loc) then "unsupported" else
     -- functions first, then resources in order
     let reg0 : Reg := if fns == "-" then [] else
       (fns.splitOn ",").foldl (fun r name =>
